@@ -235,8 +235,61 @@ def _short(r):
     return list(r)
 
 
+def set_history(enabled):
+    """switch the availability of HISTORY (history.is_enabled() = samples-capable driver and settings.core.history_support)"""
+    from qtoggleserver import persist
+    from qtoggleserver.conf import settings
+    if enabled:
+        persist.is_samples_supported = lambda: True
+        settings.core.history_support = True
+    else:
+        persist.is_samples_supported = _orig_samples_supported[0]
+        settings.core.history_support = _orig_samples_supported[1]
+
+
+_orig_samples_supported = [None, None]
+
+NON_ASCII_LETTERS = ['\u00e9', '\u00df', '\u0430', '\u03b1', '\u0662', '\u00b2', '\u4e2d']
+
+
+def non_ascii_cases(rng, g, n):
+    """valid texts with one character of a port id or of a function name replaced by a non-ASCII letter/digit: the grammar's
+    NAME and id alphabets are ASCII, so these must be rejected with unexpected-character (python-side oracle: the Coq model
+    is over ASCII)"""
+    import re
+    out = []
+    for _ in range(n):
+        s = g.expr(rng.choice([1, 2, 2, 3]))
+        spots = [m.start() for m in re.finditer(r'[A-Za-z0-9_]', s)
+                 if (m.start() > 0 and (s[m.start() - 1] in '$@' or s[m.start() - 1].isalnum())) or s[m.start():m.start() + 1].isupper()]
+        # only characters inside $id / @id or inside an upper-case function name
+        spots = [i for i in spots if _inside_id_or_name(s, i)]
+        if not spots:
+            continue
+        i = rng.choice(spots)
+        out.append(s[:i] + rng.choice(NON_ASCII_LETTERS) + s[i + 1:])
+    return out
+
+
+def _inside_id_or_name(s, i):
+    j = i
+    while j > 0 and (s[j - 1].isalnum() or s[j - 1] in '_.-'):
+        j -= 1
+    if j > 0 and s[j - 1] in '$@':
+        return True
+    k = i
+    while k < len(s) and (s[k].isalnum() or s[k] == '_'):
+        k += 1
+    rest = s[k:].lstrip()
+    return s[j:k].isupper() and rest.startswith('(')
+
+
 def check(ctx, res):
+    from qtoggleserver import persist
+    from qtoggleserver.conf import settings
     from qtoggleserver.core import history
+    _orig_samples_supported[0] = persist.is_samples_supported
+    _orig_samples_supported[1] = settings.core.history_support
     hist = bool(history.is_enabled())
     table, _ = functable.read_table()
     if not hist:
@@ -265,6 +318,35 @@ def check(ctx, res):
     allres = []
     for i in range(0, len(texts), 5000):
         allres += run_batch(ctx, res, texts[i:i + 5000], hist, 'b%d' % i)
+    # the set of known functions can change while the hub runs (HISTORY exists only with a samples-capable driver and
+    # history support): the same process parses with HISTORY available, then unavailable again
+    hist_texts = ['HISTORY(@p1, 1, 2)', ' HISTORY( @ , 0,0)', 'ADD(HISTORY(@a.b, 1, -1), 1)', 'HISTORY($p1, 1, 2)', 'HISTORY(@p1, 1)',
+                  'NOSUCH(1)', 'ADD(1, 2)'] + [t for t in texts if 'HISTORY' in t][:200]
+    try:
+        for phase, enabled in (('h1', True), ('h0', False), ('h2', True)):
+            set_history(enabled)
+            if bool(history.is_enabled()) != enabled:
+                res['tie_failures'].append('could not switch history availability to %s' % enabled)
+                break
+            extra = run_batch(ctx, res, hist_texts, enabled, phase)
+            texts += hist_texts
+            allres += extra
+    finally:
+        set_history(False)
+    # non-ASCII letters / digits inside port ids and function names
+    na = non_ascii_cases(ctx.rng, g, ctx.n(300, 5000))
+    na_res = run_impl(na)
+    d0 = res['distribution']
+    for s_, r_ in zip(na, na_res):
+        d0['non_ascii_cases'] = d0.get('non_ascii_cases', 0) + 1
+        ok = r_[0] != 'ok'           # must be rejected (another error of the mutated text may be reported first)
+        if not ok:
+            res['violations'].append({
+                'key': {'kind': 'non-ascii-in-name-or-id'},
+                'what': 'text %r has a non-ASCII character inside a port id or function name and is %s' % (
+                    s_, 'accepted' if r_[0] == 'ok' else 'not rejected cleanly: %r' % (r_[1],)),
+                'case': {'text': s_}, 'observed': _short(r_)})
+    res['evaluations'] += len(na)
     res['evaluations'] += len(texts)
     res['distinct_nontrivial'] = len({s for s in texts if '(' in s})
     d = res['distribution']
